@@ -319,6 +319,7 @@ func checkC05(c *ev.Ctx) {
 		j := jobs[i]
 		s := j.s
 		id := fmt.Sprintf("%s@%d", s.ID, j.cut)
+		noteCase(id)
 		if !want(c, id) {
 			return
 		}
